@@ -170,3 +170,314 @@ Lemma every_assigned_refuted : forall nm ia,
 Proof.
   intros nm ia. destruct nm, ia; eexists; (split; [vm_compute; reflexivity|]); repeat split; reflexivity.
 Qed.
+
+(* ================================================================== with the repaired `set`: the final table is stable *)
+
+Definition stable_entry (C : cfg) (T : skt) (ph x : string) (k : okind) : Prop :=
+  exists old, alookup (tbl_of C T ph x) x = Some old /\ (old = k \/ unify k old = Ok old).
+
+Fixpoint zip_stable (C : cfg) (T : skt) (ph : string) (xs : list string) (ks : list kind) : Prop :=
+  match xs, ks with
+  | x :: xs', k :: ks' => stable_entry C T ph x (Some k) /\ zip_stable C T ph xs' ks'
+  | _, _ => True
+  end.
+
+Definition stable_item (C : cfg) (reg : registry) (T : skt) (it : item) : Prop :=
+  match snd it with
+  | SAssign x false rhs loops =>
+      Forall (fun i => stable_entry C T (fst it) i (Some KInt)) loops /\
+      exists k, kmap C reg (sg T) (local_of T (fst it)) rhs = Ok k /\ stable_entry C T (fst it) x k
+  | SCall xs f args kwn =>
+      exists ks, kcall reg f (map (kmap C reg (sg T) (local_of T (fst it))) args) kwn = Ok ks /\
+                 zip_stable C T (fst it) xs ks
+  | _ => True
+  end.
+
+Lemma same_content_refl : forall T, same_content T T.
+Proof. intros T. split; reflexivity. Qed.
+
+Lemma same_content_trans : forall a b c, same_content a b -> same_content b c -> same_content a c.
+Proof. intros a b c [H1 H2] [H3 H4]. split; congruence. Qed.
+
+Lemma same_content_sym : forall a b, same_content a b -> same_content b a.
+Proof. intros a b [H1 H2]. split; congruence. Qed.
+
+Lemma local_of_content : forall T T' ph, same_content T T' -> local_of T ph = local_of T' ph.
+Proof. intros T T' ph [_ H]. unfold local_of. rewrite H. reflexivity. Qed.
+
+Lemma tbl_of_content : forall C T T' ph x, same_content T T' -> tbl_of C T ph x = tbl_of C T' ph x.
+Proof.
+  intros C T T' ph x H. unfold tbl_of. destruct (is_state C x); [apply H | apply local_of_content; exact H].
+Qed.
+
+Lemma stable_entry_content : forall C T T' ph x k,
+  same_content T T' -> stable_entry C T ph x k -> stable_entry C T' ph x k.
+Proof. intros C T T' ph x k H [old [Ho Hm]]. exists old. rewrite <- (tbl_of_content C T T' ph x H). auto. Qed.
+
+Lemma zip_stable_content : forall C T T' ph xs ks,
+  same_content T T' -> zip_stable C T ph xs ks -> zip_stable C T' ph xs ks.
+Proof.
+  intros C T T' ph. induction xs as [|x xs IH]; intros ks H Hz; simpl in *; [exact I|].
+  destruct ks as [|k ks]; [exact I|]. destruct Hz as [H1 H2]. split; [eapply stable_entry_content; eauto | auto].
+Qed.
+
+Lemma stable_item_content : forall C reg T T' it,
+  same_content T T' -> stable_item C reg T it -> stable_item C reg T' it.
+Proof.
+  intros C reg T T' [ph s] H Hs. unfold stable_item in *. simpl in *.
+  destruct s as [x [] rhs loops | xs f args kwn |]; auto.
+  - destruct Hs as [Hl [k [Hk He]]]. split.
+    + eapply Forall_impl; [|exact Hl]. intros i Hi. eapply stable_entry_content; eauto.
+    + exists k. destruct H as [Hg Hp]. rewrite <- Hg, <- (local_of_content T T' ph (conj Hg Hp)).
+      split; [exact Hk | eapply stable_entry_content; eauto; split; assumption].
+  - destruct Hs as [ks [Hk Hz]]. exists ks. destruct H as [Hg Hp].
+    rewrite <- Hg, <- (local_of_content T T' ph (conj Hg Hp)).
+    split; [exact Hk | eapply zip_stable_content; eauto; split; assumption].
+Qed.
+
+Definition relC (T T' : skt) : Prop :=
+  (schanged T' = false -> same_content T T' /\ schanged T = false) /\ sconf T <= sconf T'.
+
+Definition postC (C : cfg) (reg : registry) (it : item) (T : skt) : Prop :=
+  schanged T = false /\ sconf T = 0 -> stable_item C reg T it.
+
+Lemma relC_refl : forall T, relC T T.
+Proof. intros T. split; [intros H; split; [apply same_content_refl | exact H] | lia]. Qed.
+
+Lemma relC_trans : forall a b c, relC a b -> relC b c -> relC a c.
+Proof.
+  intros a b c [H1 H2] [H3 H4]. split; [|lia]. intros Hc. destruct (H3 Hc) as [Hbc Hb].
+  destruct (H1 Hb) as [Hab Ha]. split; [eapply same_content_trans; eauto | exact Ha].
+Qed.
+
+Lemma relC_tset : forall C T ph x k, new_marks C = true -> relC T (tset C T ph x k).
+Proof.
+  intros C T ph x k Hnm. split; [|apply tset_conf_mono].
+  intros Hc. destruct (tset_unchanged C T ph x k Hnm Hc) as [H1 [H2 _]]. auto.
+Qed.
+
+Lemma loops_stable : forall C ph loops T,
+  new_marks C = true ->
+  let T1 := fold_left (fun T i => tset C T ph i (Some KInt)) loops T in
+  schanged T1 = false -> sconf T1 = 0 ->
+  same_content T T1 /\ schanged T = false /\ sconf T = 0 /\
+  Forall (fun i => stable_entry C T ph i (Some KInt)) loops.
+Proof.
+  intros C ph loops T Hnm. revert T. induction loops as [|i loops IH]; intros T T1 Hc Hn; simpl in *.
+  - split; [apply same_content_refl|]. split; [assumption|]. split; [assumption|]. simpl; auto.
+  - destruct (IH (tset C T ph i (Some KInt)) Hc Hn) as [Hs [Hc' [Hn' HF]]].
+    destruct (tset_unchanged C T ph i (Some KInt) Hnm Hc') as [Hs0 [Hc0 Hst]].
+    pose proof (tset_conf_mono C T ph i (Some KInt)) as Hle.
+    assert (Hn0 : sconf T = 0) by lia.
+    split; [eapply same_content_trans; eauto|]. split; [exact Hc0|]. split; [exact Hn0|].
+    constructor.
+    + apply Hst. lia.
+    + eapply Forall_impl; [|exact HF]. intros j Hj. eapply stable_entry_content; [|exact Hj].
+      apply same_content_sym. exact Hs0.
+Qed.
+
+Lemma set_many_stable : forall C ph xs ks T,
+  new_marks C = true ->
+  schanged (set_many C T ph xs ks) = false -> sconf (set_many C T ph xs ks) = 0 ->
+  same_content T (set_many C T ph xs ks) /\ schanged T = false /\ sconf T = 0 /\ zip_stable C T ph xs ks.
+Proof.
+  intros C ph xs. induction xs as [|x xs IH]; intros ks T Hnm Hc Hn; simpl in *.
+  - split; [apply same_content_refl|]. split; [assumption|]. split; [assumption|]. simpl; auto.
+  - destruct ks as [|k ks].
+    + split; [apply same_content_refl|]. split; [assumption|]. split; [assumption|]. exact I.
+    + destruct (IH ks (tset C T ph x (Some k)) Hnm Hc Hn) as [Hs [Hc' [Hn' Hz]]].
+      destruct (tset_unchanged C T ph x (Some k) Hnm Hc') as [Hs0 [Hc0 Hst]].
+      pose proof (tset_conf_mono C T ph x (Some k)) as Hle.
+      assert (Hn0 : sconf T = 0) by lia.
+      split; [eapply same_content_trans; eauto|]. split; [exact Hc0|]. split; [exact Hn0|].
+      split.
+      * apply Hst. lia.
+      * eapply zip_stable_content; [|exact Hz]. apply same_content_sym. exact Hs0.
+Qed.
+
+Lemma procC : forall C reg T ph s,
+  new_marks C = true ->
+  match proc_stmt C reg T ph s with
+  | SDone T' _ => relC T T' /\ postC C reg (ph, s) T'
+  | SRetry T' => relC T T'
+  | SFail _ => True
+  end.
+Proof.
+  intros C reg T ph s Hnm.
+  assert (Rt : forall T ph x k, relC T (tset C T ph x (Some k))) by (intros; apply relC_tset; exact Hnm).
+  destruct s as [x has_sub rhs loops | xs f args kwn |]; simpl.
+  - pose proof (loops_rel C relC relC_refl relC_trans Rt ph loops T) as HL.
+    set (T1 := fold_left (fun T i => tset C T ph i (Some KInt)) loops T) in *.
+    destruct has_sub; [split; [exact HL | intros _; exact I]|].
+    destruct (kmap C reg (sg T1) match alookup (sp T) ph with Some _ => local_of T1 ph | None => [] end rhs)
+      as [k|e] eqn:Ek.
+    + split; [eapply relC_trans; [exact HL | apply relC_tset; exact Hnm]|].
+      intros [Hc Hn]. unfold stable_item. simpl.
+      destruct (tset_unchanged C T1 ph x k Hnm Hc) as [Hs12 [Hc1 Hst]].
+      pose proof (tset_conf_mono C T1 ph x k) as Hle.
+      assert (Hn1 : sconf T1 = 0) by lia.
+      destruct (loops_stable C ph loops T Hnm Hc1 Hn1) as [Hs01 [Hc0 [Hn0 HF]]].
+      fold T1 in Hs01.
+      assert (Hs02 : same_content T (tset C T1 ph x k)) by (eapply same_content_trans; eauto).
+      split.
+      * eapply Forall_impl; [|exact HF]. intros i Hi. eapply stable_entry_content; eauto.
+      * exists k. split.
+        -- assert (HL1 : match alookup (sp T) ph with Some _ => local_of T1 ph | None => [] end = local_of T1 ph).
+           { destruct (alookup (sp T) ph) eqn:E; [reflexivity|].
+             unfold local_of. destruct Hs01 as [_ Hp]. rewrite <- Hp, E. reflexivity. }
+           rewrite HL1 in Ek. destruct Hs12 as [Hg Hp].
+           rewrite <- Hg, <- (local_of_content T1 _ ph (conj Hg Hp)). exact Ek.
+        -- eapply stable_entry_content; [exact Hs12|]. apply Hst. lia.
+    + destruct e; auto.
+  - destruct (kcall reg f (map (kmap C reg (sg T) (local_of T ph)) args) kwn) as [ks|e] eqn:Ek.
+    + split; [apply (set_many_rel C relC relC_refl relC_trans Rt)|].
+      intros [Hc Hn]. unfold stable_item. simpl.
+      destruct (set_many_stable C ph xs ks T Hnm Hc Hn) as [Hs [Hc0 [Hn0 Hz]]].
+      exists ks. destruct Hs as [Hg Hp].
+      rewrite <- Hg, <- (local_of_content T _ ph (conj Hg Hp)).
+      split; [exact Ek | eapply zip_stable_content; [|exact Hz]; split; assumption].
+    + destruct e; auto. apply relC_refl.
+  - split; [apply relC_refl | intros _; exact I].
+Qed.
+
+Lemma postC_mono : forall C reg it T T', relC T T' -> postC C reg it T -> postC C reg it T'.
+Proof.
+  intros C reg it T T' [H1 H2] HP [Hc Hn]. destruct (H1 Hc) as [Hs Hc0].
+  eapply stable_item_content; [exact Hs|]. apply HP. split; [exact Hc0 | lia].
+Qed.
+
+Lemma outer_last : forall C reg fo fi D T T',
+  outer C reg fo fi D T = Ok T' ->
+  exists T0, inner C reg fi (rev (items_of D)) [] false (reset T0) = Ok T' /\ schanged T' = false.
+Proof.
+  induction fo as [|f IH]; intros fi D T T' H; simpl in H; [discriminate|].
+  destruct (inner C reg fi (rev (items_of D)) [] false (reset T)) as [T1|e] eqn:E; [|discriminate].
+  destruct (schanged T1) eqn:Ec; [eapply IH; eauto|]. inversion H; subst. eauto.
+Qed.
+
+(* with the repaired `set` and no "trying to derive 'kind'" message: re-inferring any statement
+   under the final table gives a kind that merges into its entry without changing it *)
+Theorem infer_stable : forall C reg fo fi D forced T,
+  new_marks C = true -> infer C reg fo fi D forced = Ok T -> sconf T = 0 ->
+  forall it, In it (items_of D) -> stable_item C reg T it.
+Proof.
+  intros C reg fo fi D forced T Hnm H Hn it Hin. unfold infer in H.
+  destruct (outer C reg fo fi D (apply_forced C forced init_table)) as [T1|e] eqn:E; [|discriminate].
+  destruct (final_check C reg T1 D); [discriminate|]. inversion H; subst T1. clear H.
+  destruct (outer_last _ _ _ _ _ _ _ E) as [T0 [Ei Hc]].
+  apply (inner_gen C reg relC (fun _ => True) (postC C reg) relC_refl relC_trans) in Ei.
+  - destruct Ei as [_ HP]. apply HP; [|split; assumption].
+    rewrite app_nil_r. apply in_rev in Hin. exact Hin.
+  - intros T2 ph s _. apply procC. exact Hnm.
+  - apply postC_mono.
+  - auto.
+Qed.
+
+(* ================================================================== from stability and the side conditions to `strict` *)
+
+Lemma lookup_tbl_of : forall C T ph x, twf C T -> lookup T ph x = alookup (tbl_of C T ph x) x.
+Proof.
+  intros C T ph x [Hg Hl]. unfold lookup, tbl_of. destruct (is_state C x) eqn:Ex.
+  - destruct (alookup (sg T) x) eqn:E; [reflexivity|].
+    destruct (alookup (local_of T ph) x) eqn:E2; [|reflexivity].
+    assert (is_state C x = false) by (apply (Hl ph); congruence). congruence.
+  - destruct (alookup (sg T) x) eqn:E; [|reflexivity].
+    assert (is_state C x = true) by (apply Hg; congruence). congruence.
+Qed.
+
+Lemma unify_stable_le : forall k kx,
+  unify (Some k) (Some kx) = Ok (Some kx) ->
+  (match kx with KArray _ | KUser _ => negb (scalar_kind (Some k)) | _ => true end) = true ->
+  kind_le k kx = true.
+Proof.
+  intros k kx H Ha.
+  destruct k as [| |r|r|i], kx as [| |s|s|j]; simpl in *; try discriminate; try reflexivity;
+    try (destruct (String.eqb i j) eqn:E; try discriminate; reflexivity);
+    inversion H; destruct r, s; simpl in *; try discriminate; reflexivity.
+Qed.
+
+Lemma stable_entry_le : forall C T ph x k,
+  twf C T -> stable_entry C T ph x (Some k) -> agg_ok T ph x k = true -> entry_le T ph x k = true.
+Proof.
+  intros C T ph x k Hwf [old [Ho Hm]] Ha. unfold entry_le, agg_ok in *.
+  rewrite (lookup_tbl_of C T ph x Hwf) in *. rewrite Ho in *.
+  destruct Hm as [->|Hu]; [apply kind_le_refl|].
+  destruct old as [kx|]; [|simpl in Hu; discriminate].
+  apply unify_stable_le; [exact Hu|]. destruct kx; auto.
+Qed.
+
+Lemma zip_entries_le : forall C T ph xs ks,
+  twf C T -> List.length xs = List.length ks ->
+  zip_stable C T ph xs ks -> aggs_ok T ph xs ks = true -> entries_le T ph xs ks = true.
+Proof.
+  intros C T ph. induction xs as [|x xs IH]; intros ks Hwf Hlen Hz Ha; destruct ks as [|k ks];
+    simpl in *; try discriminate; [reflexivity|].
+  destruct Hz as [H1 H2]. apply andb_prop in Ha. destruct Ha as [Ha1 Ha2].
+  rewrite (stable_entry_le C T ph x k Hwf H1 Ha1). simpl. apply IH; auto.
+Qed.
+
+Theorem infer_strict : forall C reg fo fi D forced T,
+  new_marks C = true -> init_twf C ->
+  infer C reg fo fi D forced = Ok T -> sconf T = 0 -> sides C reg D T = true ->
+  strict C reg D T = true.
+Proof.
+  intros C reg fo fi D forced T Hnm Hinit H Hn Hsides.
+  pose proof (infer_stable C reg fo fi D forced T Hnm H Hn) as Hst.
+  destruct (infer_keys C reg fo fi D forced T Hinit H) as [Hwf _].
+  assert (Hfc : final_check C reg T D = None).
+  { unfold infer in H. destruct (outer C reg fo fi D (apply_forced C forced init_table)) as [T1|]; [|discriminate].
+    destruct (final_check C reg T1 D) eqn:E; [discriminate|]. inversion H; subst. exact E. }
+  unfold strict, sides in *. rewrite forallb_forall in *. intros [ph stmts] HD. simpl.
+  specialize (Hsides (ph, stmts) HD). simpl in Hsides. rewrite forallb_forall in *. intros s Hs.
+  specialize (Hsides s Hs).
+  assert (Hin : In (ph, s) (items_of D)) by (apply in_items_of; eauto).
+  specialize (Hst (ph, s) Hin). unfold stable_item in Hst. simpl in Hst.
+  destruct s as [x has_sub rhs loops | xs f args kwn |]; simpl in *; [| |reflexivity].
+  - destruct has_sub; [reflexivity|]. simpl in *.
+    apply andb_prop in Hsides. destruct Hsides as [Hs1 Hside]. apply andb_prop in Hs1. destruct Hs1 as [Hlo Hk].
+    destruct Hst as [HF [k [Hkm He]]]. rewrite Hside, andb_true_r.
+    apply andb_true_intro. split.
+    + rewrite forallb_forall in *. intros i Hi. rewrite Forall_forall in HF.
+      apply (stable_entry_le C); auto.
+    + rewrite Hkm in *. destruct k as [k|]; simpl in *; [|discriminate].
+      apply (stable_entry_le C); auto.
+  - apply andb_prop in Hsides. destruct Hsides as [Hs1 Hco]. apply andb_prop in Hs1. destruct Hs1 as [Hag Hside].
+    rewrite Hside, Hco, !andb_true_r. destruct Hst as [ks [Hk Hz]]. rewrite Hk in *.
+    destruct (kcall_inv _ _ _ _ _ Hk) as [s0 [Hf Hlen]].
+    destruct (final_check_calls C reg T D Hfc ph stmts xs f args kwn HD Hs) as [s1 [Hf1 Hn1]].
+    rewrite Hf in Hf1. inversion Hf1; subst s1.
+    apply (zip_entries_le C); auto. congruence.
+Qed.
+
+(* a persistent name has the same entry in every phase *)
+Lemma twf_phase_indep : forall C T keep,
+  twf C T -> (forall x, keep x = true -> is_state C x = true) -> phase_indep T keep.
+Proof.
+  intros C T keep Hwf Hk x Kx p q. rewrite !(lookup_tbl_of C T _ x Hwf). unfold tbl_of. rewrite (Hk x Kx). reflexivity.
+Qed.
+
+(* C09, second part (partial): with the repaired `set`, no conflict message and the operand discipline *)
+Theorem soundness : forall C reg fo fi D forced T keep,
+  new_marks C = true -> init_twf C -> (forall x, keep x = true -> is_state C x = true) ->
+  infer C reg fo fi D forced = Ok T -> sconf T = 0 -> sides C reg D T = true ->
+  forall ph0 st0 ph st,
+    store_ok T ph0 st0 -> creach C reg D keep ph0 st0 ph st -> store_ok T ph st.
+Proof.
+  intros C reg fo fi D forced T keep Hnm Hinit Hk H Hn Hs ph0 st0 ph st H0 Hr.
+  destruct (infer_keys C reg fo fi D forced T Hinit H) as [Hwf _].
+  eapply reach_sound; eauto.
+  - eapply infer_strict; eauto.
+  - eapply twf_phase_indep; eauto.
+Qed.
+
+(* for every shape of the code: whenever the final table passes the re-check `strict` *)
+Theorem soundness_of_strict : forall C reg fo fi D forced T keep,
+  init_twf C -> (forall x, keep x = true -> is_state C x = true) ->
+  infer C reg fo fi D forced = Ok T -> strict C reg D T = true ->
+  forall ph0 st0 ph st,
+    store_ok T ph0 st0 -> creach C reg D keep ph0 st0 ph st -> store_ok T ph st.
+Proof.
+  intros C reg fo fi D forced T keep Hinit Hk H Hs ph0 st0 ph st H0 Hr.
+  destruct (infer_keys C reg fo fi D forced T Hinit H) as [Hwf _].
+  eapply reach_sound; eauto. eapply twf_phase_indep; eauto.
+Qed.
